@@ -235,143 +235,11 @@ func c14() []*Ob {
 				}
 			}},
 		{Prop: "C14", ID: "C14.4", Engine: "SIBLING+ORDER+DOM", Floor: 2,
-			Desc: "one index function, complete map: Add and IsIntersecting both go through midToIndex; Info.BuildDistribution adds every id of the fraction (no id is skipped) and runs before the info block is packed",
-			Check: func(c *Ctx) {
-				mi := Callee("(*seq.MIDsDistribution).midToIndex")
-				for _, name := range []string{"(*seq.MIDsDistribution).Add", "(*seq.MIDsDistribution).IsIntersecting"} {
-					fn := c.Fn(name)
-					if fn == nil {
-						continue
-					}
-					if Current.HasCall(fn, mi) {
-						c.Site(fn.Pos(), "%s maps timestamps with midToIndex", name)
-					} else {
-						c.Violation("sibling:midToIndex:"+name, fn.Pos(), "%s no longer maps timestamps with midToIndex: set bits and tested bits would use different bucket borders", name)
-					}
-				}
-				if fn := c.Fn("(*frac.Info).BuildDistribution"); fn != nil {
-					adds := CallsIn(fn, Callee("(*seq.MIDsDistribution).Add"))
-					if len(adds) == 0 {
-						c.Violation("dom:BuildDistribution:no-add", fn.Pos(), "BuildDistribution no longer adds ids to the occupancy map")
-					}
-					for _, a := range adds {
-						extra := 0
-						for _, f := range FactsAtInstr(a.(ssa.Instruction)) {
-							// allowed: the range-loop condition and the InitEmptyDistribution() result
-							if bo, ok := f.Cond.(*ssa.BinOp); ok && bo.Op == token.LSS {
-								if _, isPhiAdd := bo.X.(*ssa.BinOp); isPhiAdd {
-									continue
-								}
-							}
-							if cl, ok := f.Cond.(ssa.CallInstruction); ok && CallName(cl) == "(*frac.Info).InitEmptyDistribution" {
-								continue
-							}
-							extra++
-						}
-						if extra == 0 && InLoop(a.(ssa.Instruction).Block()) {
-							c.Site(a.Pos(), "every id of the fraction is added to the occupancy map")
-						} else {
-							c.Violation("dom:BuildDistribution:every-id", a.Pos(), "BuildDistribution adds an id only under %d extra condition(s): skipped ids leave their bucket clear and a narrow query on them prunes the fraction", extra)
-						}
-						// the argument is the id's own MID
-						if !DerivesFrom(Arg(a, 0), func(v ssa.Value) bool { _, f, _, ok := FieldOf(v); return ok && f == "MID" }) {
-							c.Violation("prov:BuildDistribution:mid", a.Pos(), "the value added to the occupancy map is not the id's MID")
-						}
-					}
-				}
-				if fn := c.Fn("frac.writeSealedFraction"); fn != nil {
-					MustPrecede(c, fn, Callee("(*frac.Info).BuildDistribution"), "info.BuildDistribution", Callee("(*frac.DiskBlocksWriter).writeInfoBlock"), "writeInfoBlock")
-				}
-			}},
+			Desc:  "one index function, complete map: Add and IsIntersecting both go through midToIndex; Info.BuildDistribution adds every id of the fraction (no id is skipped) and runs before the info block is packed",
+			Check: func(c *Ctx) { occupancyMapComplete(c) }},
 		{Prop: "C14", ID: "C14.6", Engine: "DOM(evidence)", Floor: 2,
-			Desc: "the LID-border predicate of a sealed fraction answers 'less or equal' only on evidence about that very position: sealedIDsIndex.LessOrEqual returns the constant true only when the lid is beyond the table, when the PREVIOUS block's minimum is already <= id (seq.LessOrEqual over MinBlockIDs[blockIndex-1]), or after comparing the position's own MID (GetMID(lid)) with id.MID — a shortcut taken from anything else makes the predicate non-monotone and the binary search of getLIDsBorders cuts documents of the requested range",
-			Check: func(c *Ctx) {
-				fn := c.Fn("(*frac.sealedIDsIndex).LessOrEqual")
-				if fn == nil {
-					return
-				}
-				var lid, id *ssa.Parameter
-				for _, p := range fn.Params {
-					switch p.Name() {
-					case "lid":
-						lid = p
-					case "id":
-						id = p
-					}
-				}
-				if lid == nil || id == nil {
-					c.Undecided("dom:sealedIDsIndex.LessOrEqual:params", fn.Pos(), "parameters lid/id not found")
-					return
-				}
-				fromID := func(v ssa.Value) bool {
-					return DerivesFrom(v, func(x ssa.Value) bool { return x == ssa.Value(id) })
-				}
-				ownMID := func(v ssa.Value) bool {
-					return DerivesFrom(v, func(x ssa.Value) bool {
-						cl, ok := x.(ssa.CallInstruction)
-						return ok && strings.HasSuffix(CallName(cl), ".GetMID") && len(cl.Common().Args) > 0 && DerivesFromNoCall(cl.Common().Args[len(cl.Common().Args)-1], func(y ssa.Value) bool { return y == ssa.Value(lid) })
-					})
-				}
-				evidence := func(f Fact) string {
-					switch x := f.Cond.(type) {
-					case *ssa.BinOp:
-						// beyond the table: lid >= total
-						if (x.Op == token.GEQ || x.Op == token.GTR) && f.Val && DerivesFromNoCall(x.X, func(y ssa.Value) bool { return y == ssa.Value(lid) }) && !fromID(x.Y) {
-							return "lid is beyond the id table"
-						}
-						// own MID compared with id.MID
-						if (ownMID(x.X) && fromID(x.Y)) || (ownMID(x.Y) && fromID(x.X)) {
-							switch {
-							case x.Op == token.EQL && f.Val, x.Op == token.NEQ && !f.Val:
-								return "own MID == id.MID"
-							case ownMID(x.X) && (x.Op == token.LSS || x.Op == token.LEQ) && f.Val:
-								return "own MID < id.MID"
-							case ownMID(x.Y) && (x.Op == token.GTR || x.Op == token.GEQ) && f.Val:
-								return "own MID < id.MID"
-							}
-						}
-					case *ssa.Call:
-						if f.Val && CallName(x) == "seq.LessOrEqual" && len(x.Call.Args) == 2 && fromID(x.Call.Args[1]) {
-							// first argument: MinBlockIDs[blockIndex-1]
-							if DerivesFromNoCall(x.Call.Args[0], func(y ssa.Value) bool {
-								ia, ok := y.(*ssa.IndexAddr)
-								if !ok {
-									return false
-								}
-								bo, ok := ia.Index.(*ssa.BinOp)
-								if !ok || bo.Op != token.SUB {
-									return false
-								}
-								k, isK := ConstInt(bo.Y)
-								return isK && k == 1
-							}) {
-								return "the previous block's minimum is <= id"
-							}
-						}
-					}
-					return ""
-				}
-				for _, b := range fn.Blocks {
-					ret, ok := b.Instrs[len(b.Instrs)-1].(*ssa.Return)
-					if !ok {
-						continue
-					}
-					if k, isK := ConstBool(RetOperand(ret, 0)); !isK || !k {
-						continue
-					}
-					why := ""
-					for _, f := range FactsAt(b) {
-						if w := evidence(f); w != "" {
-							why = w
-						}
-					}
-					if why != "" {
-						c.Site(ret.Pos(), "returns true because %s", why)
-					} else {
-						c.Violation("dom:sealedIDsIndex.LessOrEqual:true-without-evidence", ret.Pos(), "sealedIDsIndex.LessOrEqual answers true without the lid being out of range, the previous block's minimum being <= id, or the position's own MID having been compared with id.MID: the predicate is not monotone over the descending id table and getLIDsBorders cuts the LID window in the wrong place (documents of the requested time range disappear, or others appear)")
-					}
-				}
-			}},
+			Desc:  "the LID-border predicate of a sealed fraction answers 'less or equal' only on evidence about that very position: sealedIDsIndex.LessOrEqual returns the constant true only when the lid is beyond the table, when the PREVIOUS block's minimum is already <= id (seq.LessOrEqual over MinBlockIDs[blockIndex-1]), or after comparing the position's own MID (GetMID(lid)) with id.MID — a shortcut taken from anything else makes the predicate non-monotone and the binary search of getLIDsBorders cuts documents of the requested range",
+			Check: func(c *Ctx) { lessOrEqualEvidence(c) }},
 		{Prop: "C14", ID: "C14.5", Engine: "PROV+ORDER", Floor: 1,
 			Desc: "the fetch window covers every requested id: fracmanager.sortIDs returns the minimum and maximum MID from the ends of the sorted copy (after sorting), and groupIDsByFraction passes exactly those to FilterInRange",
 			Check: func(c *Ctx) {
@@ -440,5 +308,143 @@ func c14() []*Ob {
 					}
 				}
 			}},
+	}
+}
+
+// occupancyMapComplete: shared by C14.4 and C05.7.
+func occupancyMapComplete(c *Ctx) {
+	mi := Callee("(*seq.MIDsDistribution).midToIndex")
+	for _, name := range []string{"(*seq.MIDsDistribution).Add", "(*seq.MIDsDistribution).IsIntersecting"} {
+		fn := c.Fn(name)
+		if fn == nil {
+			continue
+		}
+		if Current.HasCall(fn, mi) {
+			c.Site(fn.Pos(), "%s maps timestamps with midToIndex", name)
+		} else {
+			c.Violation("sibling:midToIndex:"+name, fn.Pos(), "%s no longer maps timestamps with midToIndex: set bits and tested bits would use different bucket borders", name)
+		}
+	}
+	if fn := c.Fn("(*frac.Info).BuildDistribution"); fn != nil {
+		adds := CallsIn(fn, Callee("(*seq.MIDsDistribution).Add"))
+		if len(adds) == 0 {
+			c.Violation("dom:BuildDistribution:no-add", fn.Pos(), "BuildDistribution no longer adds ids to the occupancy map")
+		}
+		for _, a := range adds {
+			extra := 0
+			for _, f := range FactsAtInstr(a.(ssa.Instruction)) {
+				// allowed: the range-loop condition and the InitEmptyDistribution() result
+				if bo, ok := f.Cond.(*ssa.BinOp); ok && bo.Op == token.LSS {
+					if _, isPhiAdd := bo.X.(*ssa.BinOp); isPhiAdd {
+						continue
+					}
+				}
+				if cl, ok := f.Cond.(ssa.CallInstruction); ok && CallName(cl) == "(*frac.Info).InitEmptyDistribution" {
+					continue
+				}
+				extra++
+			}
+			if extra == 0 && InLoop(a.(ssa.Instruction).Block()) {
+				c.Site(a.Pos(), "every id of the fraction is added to the occupancy map")
+			} else {
+				c.Violation("dom:BuildDistribution:every-id", a.Pos(), "BuildDistribution adds an id only under %d extra condition(s): skipped ids leave their bucket clear and a narrow query on them prunes the fraction", extra)
+			}
+			// the argument is the id's own MID
+			if !DerivesFrom(Arg(a, 0), func(v ssa.Value) bool { _, f, _, ok := FieldOf(v); return ok && f == "MID" }) {
+				c.Violation("prov:BuildDistribution:mid", a.Pos(), "the value added to the occupancy map is not the id's MID")
+			}
+		}
+	}
+	if fn := c.Fn("frac.writeSealedFraction"); fn != nil {
+		MustPrecede(c, fn, Callee("(*frac.Info).BuildDistribution"), "info.BuildDistribution", Callee("(*frac.DiskBlocksWriter).writeInfoBlock"), "writeInfoBlock")
+	}
+}
+
+// lessOrEqualEvidence: shared by C14.6 and C04.8.
+func lessOrEqualEvidence(c *Ctx) {
+	fn := c.Fn("(*frac.sealedIDsIndex).LessOrEqual")
+	if fn == nil {
+		return
+	}
+	var lid, id *ssa.Parameter
+	for _, p := range fn.Params {
+		switch p.Name() {
+		case "lid":
+			lid = p
+		case "id":
+			id = p
+		}
+	}
+	if lid == nil || id == nil {
+		c.Undecided("dom:sealedIDsIndex.LessOrEqual:params", fn.Pos(), "parameters lid/id not found")
+		return
+	}
+	fromID := func(v ssa.Value) bool {
+		return DerivesFrom(v, func(x ssa.Value) bool { return x == ssa.Value(id) })
+	}
+	ownMID := func(v ssa.Value) bool {
+		return DerivesFrom(v, func(x ssa.Value) bool {
+			cl, ok := x.(ssa.CallInstruction)
+			return ok && strings.HasSuffix(CallName(cl), ".GetMID") && len(cl.Common().Args) > 0 && DerivesFromNoCall(cl.Common().Args[len(cl.Common().Args)-1], func(y ssa.Value) bool { return y == ssa.Value(lid) })
+		})
+	}
+	evidence := func(f Fact) string {
+		switch x := f.Cond.(type) {
+		case *ssa.BinOp:
+			// beyond the table: lid >= total
+			if (x.Op == token.GEQ || x.Op == token.GTR) && f.Val && DerivesFromNoCall(x.X, func(y ssa.Value) bool { return y == ssa.Value(lid) }) && !fromID(x.Y) {
+				return "lid is beyond the id table"
+			}
+			// own MID compared with id.MID
+			if (ownMID(x.X) && fromID(x.Y)) || (ownMID(x.Y) && fromID(x.X)) {
+				switch {
+				case x.Op == token.EQL && f.Val, x.Op == token.NEQ && !f.Val:
+					return "own MID == id.MID"
+				case ownMID(x.X) && (x.Op == token.LSS || x.Op == token.LEQ) && f.Val:
+					return "own MID < id.MID"
+				case ownMID(x.Y) && (x.Op == token.GTR || x.Op == token.GEQ) && f.Val:
+					return "own MID < id.MID"
+				}
+			}
+		case *ssa.Call:
+			if f.Val && CallName(x) == "seq.LessOrEqual" && len(x.Call.Args) == 2 && fromID(x.Call.Args[1]) {
+				// first argument: MinBlockIDs[blockIndex-1]
+				if DerivesFromNoCall(x.Call.Args[0], func(y ssa.Value) bool {
+					ia, ok := y.(*ssa.IndexAddr)
+					if !ok {
+						return false
+					}
+					bo, ok := ia.Index.(*ssa.BinOp)
+					if !ok || bo.Op != token.SUB {
+						return false
+					}
+					k, isK := ConstInt(bo.Y)
+					return isK && k == 1
+				}) {
+					return "the previous block's minimum is <= id"
+				}
+			}
+		}
+		return ""
+	}
+	for _, b := range fn.Blocks {
+		ret, ok := b.Instrs[len(b.Instrs)-1].(*ssa.Return)
+		if !ok {
+			continue
+		}
+		if k, isK := ConstBool(RetOperand(ret, 0)); !isK || !k {
+			continue
+		}
+		why := ""
+		for _, f := range FactsAt(b) {
+			if w := evidence(f); w != "" {
+				why = w
+			}
+		}
+		if why != "" {
+			c.Site(ret.Pos(), "returns true because %s", why)
+		} else {
+			c.Violation("dom:sealedIDsIndex.LessOrEqual:true-without-evidence", ret.Pos(), "sealedIDsIndex.LessOrEqual answers true without the lid being out of range, the previous block's minimum being <= id, or the position's own MID having been compared with id.MID: the predicate is not monotone over the descending id table and getLIDsBorders cuts the LID window in the wrong place (documents of the requested time range disappear, or others appear)")
+		}
 	}
 }
